@@ -20,6 +20,7 @@ Section SchemaInd.
   Hypothesis HArr : forall n e, P e -> P (SArr n e).
   Hypothesis HMap : forall k v, P k -> P v -> P (SMap k v).
   Hypothesis HIface : forall alts, Forall (fun a : N * schema => P (snd a)) alts -> P (SIface alts).
+  Hypothesis HByteArrO : forall ptr n code key, P (SByteArrO ptr n code key).
 
   Fixpoint schema_ind' (s : schema) : P s :=
     match s with
@@ -42,6 +43,7 @@ Section SchemaInd.
               | [] => Forall_nil _
               | (c, x) :: r => Forall_cons (c, x) (schema_ind' x) (go r)
               end) alts)
+    | SByteArrO ptr n code key => HByteArrO ptr n code key
     end.
 End SchemaInd.
 
